@@ -35,6 +35,12 @@ Inductive c16_case :=
    interpreter's own formatted text (marker lines removed, final newline removed)
    and boltons' view *)
 | CaseEI (fs : list live_frame) (e : live_exc) (interp : str) (o : ei_obs)
+(* several exceptions in one process while the module files are rewritten (and mostly
+   reloaded) in between: per step the interpreter's view at that moment (what linecache
+   serves is a function of time; it enters as data), boltons' view taken just before it,
+   and optionally get_formatted() of the same ExceptionInfo object asked again after a
+   further edit of the files *)
+| CaseSess (steps : list (list live_frame * live_exc * str * ei_obs * option str))
 (* one of the three compiled patterns (0 = _frame_re, 1 = _se_frame_re, 2 = _underline_re)
    applied with .match to a string: None, or the list of its groups *)
 | CaseRe (which : N) (s : str) (groups : option (list str)).
@@ -161,6 +167,21 @@ Definition spec_re (which : N) (s : str) : option (list str) :=
   | _ => re_match P gen_underline_items gen_underline_groups s
   end.
 
+(* a step of a session is judged like a single live exception; in addition the model says
+   that an ExceptionInfo keeps the lines it has read (_DeferredLine caches): asked again,
+   it gives the same text whatever happened to the files *)
+Definition sess_step_verdict (st : list live_frame * live_exc * str * ei_obs * option str) : verdict :=
+  let '(fs, e, interp, o, again) := st in
+  let '(a, h, k) := ei_verdict fs e interp o in
+  (a && match again with Some t => str_eqb t (eo_fmt (model_ei fs e)) | None => true end, h, k).
+
+Definition sess_verdict (steps : list (list live_frame * live_exc * str * ei_obs * option str)) : verdict :=
+  let vs := map sess_step_verdict steps in
+  (forallb (fun v => fst (fst v)) vs,
+   forallb (fun v => snd (fst v)) vs,
+   (* every step that fails the Spec does so inside a recorded guard *)
+   forallb (fun v => snd (fst v) || snd v) vs).
+
 Definition c16_verdict (c : c16_case) : verdict :=
   match c with
   | CaseRT T ms text parsed printed => rt_verdict T ms text parsed printed
@@ -168,6 +189,7 @@ Definition c16_verdict (c : c16_case) : verdict :=
       let '(mp, ms') := model_parse_print text in
       (rtb_eqb mp parsed && rstr_eqb ms' printed, true, false)
   | CaseEI fs e interp o => ei_verdict fs e interp o
+  | CaseSess steps => sess_verdict steps
   | CaseRe which s groups =>
       (* agree: the scanner's matcher of the model; holds: the reference semantics of re on the
          pattern regenerated from the source (validation of Spec.C16_Re against the real module) *)
@@ -178,7 +200,8 @@ Definition c16_verdict (c : c16_case) : verdict :=
 Inductive c16_expl :=
 | ExplRT (model_parsed : res tb) (model_printed : res str) (spec_text : str) (wf_T : bool) (input_ok : bool)
 | ExplEI (model : ei_obs) (spec_text : str) (spec_tb : tb)
-| ExplRe (model_groups spec_groups : option (list str)).
+| ExplRe (model_groups spec_groups : option (list str))
+| ExplSess (steps : list (ei_obs * str * verdict)).
 
 Definition c16_explain (c : c16_case) : c16_expl :=
   match c with
@@ -188,4 +211,7 @@ Definition c16_explain (c : c16_case) : c16_expl :=
   | CaseRaw text _ _ => let '(a, b) := model_parse_print text in ExplRT a b [] false true
   | CaseEI fs e _ _ => ExplEI (model_ei fs e) (std_text (std_tb P fs e)) (std_tb P fs e)
   | CaseRe which s _ => ExplRe (model_re which s) (spec_re which s)
+  | CaseSess steps =>
+      ExplSess (map (fun st => let '(fs, e, _, _, _) := st in
+                               (model_ei fs e, std_text (std_tb P fs e), sess_step_verdict st)) steps)
   end.
